@@ -395,6 +395,26 @@ func runC20(c *Ctx) (int, error) {
 			put(map[string]interface{}{"ev": "stale", "t": t, "j": j, "a": toInts(a), "b": toInts(b), "errset": ea && eb, "panic": pn})
 		}
 	}
+	// ... and ReadString: an 8-byte value is read first, then a string of declared length n whose body is cut after j bytes
+	for n := 1; n <= 12; n++ {
+		for j := 0; j < n; j++ {
+			run := func(fill byte) ([]byte, bool) {
+				data := append(bytes.Repeat([]byte{fill}, 8), digitsU(uint64(n), 4)...)
+				data = append(data, bytes.Repeat([]byte{0x01}, j)...)
+				er := iohelp.NewErrorReader(&shortReader{data: data})
+				_ = iohelp.ReadUint64(er)
+				s := iohelp.ReadString(er)
+				return []byte(s), er.Err != nil
+			}
+			var a, b []byte
+			var ea, eb bool
+			pn := safely(func() {
+				a, ea = run(0x41)
+				b, eb = run(0x7A)
+			})
+			put(map[string]interface{}{"ev": "stale", "t": "string", "j": j, "a": toInts(a), "b": toInts(b), "errset": ea && eb, "panic": pn})
+		}
+	}
 	w.Flush()
 	f.Close()
 	// judge
